@@ -11,6 +11,7 @@ From AQ Require Import model.ConnDgram proofs.ConnDgramP.
 From AQ Require proofs.CodecProofs.
 From AQ Require model.Builder model.ConnClose proofs.BuilderProofs proofs.ConnCloseP.
 From AQ Require model.Timers model.TimersSpec proofs.AfterCloseP.
+From AQ Require gen.C05Epochs model.ConnEpochs proofs.ConnEpochsP.
 
 (* For ALL payload byte strings and every frame boundary reached through successfully handled frames
    (induction over the frame loop), in both model variants: an empty payload closes with
@@ -363,3 +364,70 @@ Theorem receive_datagram_paths_total : forall c data orcs s addr vs,
   end.
 Proof. exact receive_datagram_paths_total_all. Qed.
 Print Assumptions receive_datagram_paths_total.
+
+(* ---------- epoch-keyed tables (round e05): model coq/model/ConnEpochs.v on top of ConnRecv.v's frame layer; `_initialize`'s
+   keys, `_discard_epoch`'s body (a statement list the model interprets), the TLS engine's subscripts and every mention of
+   the four dicts GENERATED from the source (coq/gen/C05Epochs.v, tools/gen/c05_epochs.py); proofs coq/proofs/ConnEpochsP.v.
+
+   After _initialize, for ANY history of _initialize again / decrypted packets in any packet number space with any payload
+   bytes, any connection snapshot and any TLS table use / datagrams_to_send / _close_end -- including the frames that FOLLOW,
+   in the same packet, the CRYPTO frame (server) or HANDSHAKE_DONE frame (client) whose handler discarded the Handshake
+   epoch -- no subscript of _cryptos / _crypto_buffers / _crypto_streams / _spaces raises KeyError, and the key lists of
+   the four dicts are exactly the ones _initialize created. *)
+Theorem epoch_tables_total : forall patched is_client complete confirmed evs,
+  exists s, ConnEpochs.erun C05Epochs.DISCARD_BODY patched
+              (ConnEpochs.mkE ConnEpochs.initialize_tabs is_client complete confirmed) evs = ConnEpochs.EOk s /\
+            ConnEpochs.tabs_full (ConnEpochs.e_tabs s) = true /\
+            ConnEpochs.dkeys (ConnEpochs.t_cryptos (ConnEpochs.e_tabs s)) = C05Epochs.INIT_CRYPTOS /\
+            ConnEpochs.dkeys (ConnEpochs.t_buffers (ConnEpochs.e_tabs s)) = C05Epochs.INIT_BUFFERS /\
+            ConnEpochs.dkeys (ConnEpochs.t_streams (ConnEpochs.e_tabs s)) = C05Epochs.INIT_STREAMS /\
+            ConnEpochs.dkeys (ConnEpochs.t_spaces (ConnEpochs.e_tabs s)) = C05Epochs.INIT_SPACES.
+Proof. exact ConnEpochsP.epoch_tables_total_pf. Qed.
+Print Assumptions epoch_tables_total.
+
+(* the same for EVERY _discard_epoch body that removes no entry, from every state with _initialize's key lists *)
+Theorem epoch_tables_total_any_body : forall body patched s evs,
+  ConnEpochs.no_removal body = true ->
+  (forall t, ConnEpochs.dkeys (ConnEpochs.tget t (ConnEpochs.e_tabs s)) =
+             ConnEpochs.dkeys (ConnEpochs.tget t ConnEpochs.initialize_tabs)) ->
+  exists s', ConnEpochs.erun body patched s evs = ConnEpochs.EOk s' /\
+             ConnEpochs.tabs_full (ConnEpochs.e_tabs s') = true.
+Proof. exact ConnEpochsP.epoch_tables_total_gen_pf. Qed.
+Print Assumptions epoch_tables_total_any_body.
+
+(* what the GENERATED _discard_epoch does to a live epoch: the pair is torn down, the space is marked discarded, the
+   stream and buffer tables are untouched *)
+Theorem discard_epoch_keeps_entries : forall e T T', ConnEpochsP.inv T ->
+  ConnRecv.zmem e (ConnEpochsP.K C05Epochs.TSpaces) = true ->
+  ConnEpochs.dget e (ConnEpochs.t_spaces T) = Some false ->
+  ConnEpochs.discard_epoch_with C05Epochs.DISCARD_BODY e T = ConnEpochs.EOk T' ->
+  ConnEpochs.dget e (ConnEpochs.t_cryptos T') = Some false /\ ConnEpochs.dget e (ConnEpochs.t_spaces T') = Some true /\
+  ConnEpochs.t_streams T' = ConnEpochs.t_streams T /\ ConnEpochs.t_buffers T' = ConnEpochs.t_buffers T.
+Proof. exact ConnEpochsP.discard_keeps_entries_pf. Qed.
+Print Assumptions discard_epoch_keeps_entries.
+
+(* the refuted twin: a _discard_epoch that also pops the epoch's stream and buffer entries (seeded/C05/seed5) -- a server,
+   ONE Handshake packet [CRYPTO(client Finished), CRYPTO(offset 0, length 0)]: KeyError at _crypto_streams[HANDSHAKE] *)
+Theorem epoch_tables_discard_streams_refuted :
+  exists is_client evs,
+    ConnEpochs.erun ConnEpochs.seeded_discard_body true (ConnEpochs.einit is_client) evs =
+    ConnEpochs.EKey C05Epochs.TStreams EPOCH_HANDSHAKE.
+Proof. exact ConnEpochsP.epoch_tables_discard_streams_refuted_pf. Qed.
+Print Assumptions epoch_tables_discard_streams_refuted.
+
+(* every statement of connection.py that assigns / mutates one of the four dicts, every other mention of one, and every
+   call of _initialize / _discard_epoch / _push_crypto_data / _close_end is the one the model was written against *)
+Theorem epoch_sites_known : C05Epochs.epoch_sites = ConnEpochs.epoch_sites_expected.
+Proof. exact ConnEpochsP.epoch_sites_known. Qed.
+Print Assumptions epoch_sites_known.
+
+(* the table layer is conservative over the frame layer: a frame it lets through is handled by ConnRecv.frame_step with the
+   same resulting snapshot and rest of the payload; where it stops, ConnRecv.frame_step stops (QuicConnectionError / exception) *)
+Theorem epoch_layer_conservative : forall body patched s st epoch u b,
+  match ConnEpochs.eframe_step body patched s st epoch u b with
+  | ConnEpochs.ESNext _ st' rest => exists c, frame_step patched st epoch b = SNext st' rest c
+  | ConnEpochs.ESStop _ => match frame_step patched st epoch b with SNext _ _ _ => False | _ => True end
+  | ConnEpochs.ESKey _ _ => True
+  end.
+Proof. exact ConnEpochsP.eframe_step_conservative_pf. Qed.
+Print Assumptions epoch_layer_conservative.
